@@ -2126,9 +2126,13 @@ def detect_asymmetric_weights(op):
 
 def fixup_asymmetric_weights(op: Operation, arch, nng) -> Operation:
     if detect_asymmetric_weights(op):
-        if op.run_on_npu:
+        if op.run_on_npu and op.weights.values is not None:
             print("Zero points have been adjusted.")
-            op.weights.quantization.zero_point *= 0
+            # Not in place: the zero point array can be shared with the tensor of the source model, which is written
+            # back unchanged if the operator ends up on the CPU. Non-constant weights are feature maps of that model
+            op.weights.quantization.zero_point = op.weights.quantization.zero_point * 0
+        else:
+            print()
     return op
 
 
